@@ -79,4 +79,58 @@ def generate(rng, tier, focus):
         hist = [rng.choice(alpha) for _ in range(rng.randrange(3, 10))]
         shared = rng.choice([["hot", 0], ["hot", 0], op("map", [["id"]], ["hot", 0]), op("filter", [["true"]], ["hot", 0])])
         cases.append((mk(kind, hist, {}, shared), {"k": "shared-value"}))
+    # a subscription made INSIDE the subject's terminal notification - by an operator (concat / on_error_resume_next over the same
+    # subject twice) or by the subscriber's own callback: a history-keeping subject must hand the newcomer its stored terminal
+    for _ in range(4000 if thorough else 600):
+        kind = rng.choice([["behavior", 0], ["replay"]])
+        term = rng.choice([C, e(3)])
+        how = rng.choice(["concat", "resume", "react"])
+        pre = [["emit", 0, n(rng.choice([1, 2, 3]))] for _ in range(rng.randrange(0, 3))]
+        mid = [["emit", 0, n(rng.choice([1, 2, 3]))] for _ in range(rng.randrange(0, 3))]
+        post = [["emit", 0, rng.choice([n(1), C, e(3)])] for _ in range(rng.randrange(0, 2))]
+        if how == "concat":
+            p = op("concat", [], ["hot", 0], ["hot", 0])
+            term = C
+            subs = [sub(0, p)]
+        elif how == "resume":
+            p = op("on_error_resume_next", [], ["hot", 0], ["hot", 0])
+            term = e(3)
+            subs = [sub(0, p)]
+        else:
+            # the subscriber's i-th callback subscribes a second observer; i ranges over every callback including the terminal one
+            ncb = (1 if kind[0] == "behavior" else len(pre)) + len(mid)
+            subs = [sub(0, ["hot", 0], (rng.choice([ncb, ncb, max(0, ncb - 1), 0]), ["sub", 1, ["hot", 0]]))]
+        if rng.random() < 0.3:
+            subs.append(sub(2, ["hot", 0]))
+        acts = pre + subs + mid + [["emit", 0, term]] + post
+        cases.append((scn(subjects=[kind], handles=3, script_=acts), {"k": "sub-in-terminal", "how": how, "term": term}))
     return cases
+
+
+def judge_impl(cases, obs):
+    """sub-in-terminal: whoever is subscribed to a BehaviorSubject / ReplaySubject when it terminates, or subscribes afterwards -
+    also from inside the terminal notification itself - ends with that terminal, exactly once (concat / on_error_resume_next over
+    the same subject twice: the second subscription is made inside the first one's terminal handler and is handed the stored terminal)"""
+    out = []
+    for i, ((sc, info), ob) in enumerate(zip(cases, obs)):
+        if info.get("k") != "sub-in-terminal" or ob["out"] != "ok":
+            continue
+        want = sx.dumps(info["term"])
+        logs = {}
+        for x in ob["log"]:
+            logs.setdefault(x[0], []).append(sx.dumps(x[2]))
+        for u, l in sorted(logs.items()):
+            terms = [y for y in l if y.startswith("(c") or y.startswith("(e")]
+            if not l:
+                continue
+            if terms != [want] or l[-1] != want:
+                out.append((i, "subscriber %s of a history-keeping subject that terminated with %s received %s: it must end with that terminal, once" % (u, want, " ".join(l))))
+                break
+        # the subscriber made inside a callback must have been handed something (at least the stored terminal)
+        if info["how"] == "react" and "t1" not in logs and any(x[0] == "t0" for x in ob["log"]):
+            n0 = len(logs.get("t0", []))
+            r = [a for a in sx.field(sc[1:], "script") if a[0] == "sub" and a[1] == 0][0]
+            idx = [q[1] for q in r[3:] if q[0] == "react"][0]
+            if n0 > idx:
+                out.append((i, "the observer subscribed from inside callback #%d of a history-keeping subject that has terminated received nothing (not even the stored terminal)" % idx))
+    return out
